@@ -40,15 +40,24 @@ func drawPortItem(rt *rapid.T, prev *portItem) portItem {
 }
 
 var recPorts = ev.New("C10", "portset-model",
-	"rapid: 0-40 items (single ports and ranges; positions at 64-bit block edges, port 1 and 65535, adjacent/overlapping/nested relative to the previous item) "+
+	"rapid: 0-40 items (single ports and ranges; positions at 64-bit block edges, port 1 and 65535, adjacent/overlapping/nested relative to the previous item; "+
+		"a third of the cases: exactly k = 1..16 disjoint non-adjacent ranges with single-port ranges first / middle / last, i.e. the range list of every length) "+
 		"fed through Parse (one comma-separated string) and Add/AddRange; oracle: a [65536]bool model. Compared for all ports: PortSet.Contains (1..65535), RangeSet().Contains (0..65535), "+
 		"the single-port form First() when Count()==1, plus Count, RangeCount, First. Non-trivial: >=2 items with an adjacent or overlapping pair and a range crossing a 64-bit block edge; distinct key = item list").
-	Require("adjacent", "overlap", "block-cross", "touches-1", "touches-65535", "single-port-form", "ranges<=16", "ranges>16", "ranges=16", "ranges=17", "empty")
+	Require("adjacent", "overlap", "block-cross", "touches-1", "touches-65535", "single-port-form", "ranges<=16", "ranges>16", "ranges=16", "ranges=17", "empty").
+	Require("ranges=1", "ranges=2", "ranges=3", "ranges=4", "ranges=5", "ranges=6", "ranges=7", "ranges=8", "ranges=9", "ranges=10", "ranges=11", "ranges=12", "ranges=13", "ranges=14", "ranges=15",
+		"list-single-port-first", "list-single-port-middle", "list-single-port-last", "list<=16-ends-at-65535", "list<=16-starts-at-1")
 
 func TestPortSetModel(t *testing.T) {
 	rapid.Check(t, func(rt *rapid.T) {
 		var items []portItem
-		if rapid.IntRange(0, 3).Draw(rt, "layout") == 0 {
+		layout := rapid.IntRange(0, 5).Draw(rt, "layout")
+		if layout >= 4 {
+			// Round 6: the range LIST of every length 1..16 (what the router keeps for <=16 ranges):
+			// exactly k disjoint, non-adjacent ranges, single-port ranges at drawn positions
+			// (first / middle / last), gaps of one port, of a block, or wide.
+			items = drawExactRangeList(rt)
+		} else if layout == 0 {
 			// spread: k disjoint, non-adjacent items (so the range count is exactly k), around the
 			// 16/17 threshold that switches the router's representation
 			k := rapid.SampledFrom([]int{15, 16, 17, 18, 30, 40}).Draw(rt, "spread-k")
@@ -75,6 +84,47 @@ func TestPortSetModel(t *testing.T) {
 		}
 		checkPorts(rt, items, recPorts)
 	})
+}
+
+// drawExactRangeList draws k in 1..16 disjoint non-adjacent items in increasing order (optionally
+// shuffled afterwards): the canonical range list of the resulting set has exactly k entries.
+func drawExactRangeList(rt *rapid.T) []portItem {
+	k := rapid.IntRange(1, 16).Draw(rt, "list-k")
+	singles := rapid.IntRange(0, 7).Draw(rt, "list-singles") // bit0 first, bit1 middle, bit2 last
+	mid := k / 2
+	widths := make([]int, k)
+	gaps := make([]int, k) // gap before item i (>=1 missing port, except before the first)
+	total := 0
+	for i := range k {
+		single := (i == 0 && singles&1 != 0) || (i == k-1 && singles&4 != 0) || (i == mid && i != 0 && i != k-1 && singles&2 != 0)
+		if !single {
+			widths[i] = rapid.SampledFrom([]int{0, 1, 1, 2, 62, 63, 64, 65, 127, 1000}).Draw(rt, "list-w")
+		}
+		if i > 0 {
+			gaps[i] = rapid.SampledFrom([]int{1, 1, 2, 63, 64, 65, 500, 3000}).Draw(rt, "list-gap")
+		}
+		total += widths[i] + 1 + gaps[i]
+	}
+	var start int
+	switch rapid.IntRange(0, 3).Draw(rt, "list-anchor") {
+	case 0:
+		start = 1
+	case 1:
+		start = 65536 - total // the last range ends at 65535
+	default:
+		start = rapid.IntRange(1, 65536-total).Draw(rt, "list-start")
+	}
+	items := make([]portItem, 0, k)
+	cur := start
+	for i := range k {
+		cur += gaps[i]
+		items = append(items, portItem{From: uint16(cur), To: uint16(cur + widths[i]), Via: rapid.IntRange(0, 1).Draw(rt, "via")})
+		cur += widths[i] + 1
+	}
+	if rapid.IntRange(0, 2).Draw(rt, "list-shuffle") == 0 {
+		items = rapid.Permutation(items).Draw(rt, "list-perm")
+	}
+	return items
 }
 
 func checkPorts(rt fataler, items []portItem, rec *ev.Recorder) {
@@ -193,6 +243,28 @@ func checkPorts(rt fataler, items []portItem, rec *ev.Recorder) {
 	add(ranges == 16, "ranges=16")
 	add(ranges == 17, "ranges=17")
 	add(ranges > 16, "ranges>16")
+	// Round 6: every length of the range list, and where its single-port ranges sit
+	if ranges >= 1 && ranges <= 15 {
+		labels = append(labels, fmt.Sprintf("ranges=%d", ranges))
+	}
+	if ranges >= 2 && ranges <= 16 {
+		idx := 0
+		var sf, sm, sl bool
+		for p := 1; p < 65536; p++ {
+			if model[p] && !model[p-1] {
+				single := p == 65535 || !model[p+1]
+				sf = sf || (single && idx == 0)
+				sl = sl || (single && idx == ranges-1)
+				sm = sm || (single && idx > 0 && idx < ranges-1)
+				idx++
+			}
+		}
+		add(sf, "list-single-port-first")
+		add(sm, "list-single-port-middle")
+		add(sl, "list-single-port-last")
+		add(model[65535], "list<=16-ends-at-65535")
+		add(model[1], "list<=16-starts-at-1")
+	}
 	sort.Strings(labels)
 	nt := len(items) >= 2 && (adjacent || overlap) && cross
 	rec.Case(fmt.Sprint(items), nt, labels...)
@@ -287,3 +359,112 @@ func TestPortParseForms(t *testing.T) {
 var recPortForms = ev.New("C10", "port-parse-forms",
 	"fixed table of range-string forms (single, adjacent, overlapping, nested, reversed order, duplicates, bounds 1 and 65535; refused: port 0, from>to, >65535, non-numeric, empty element); "+
 		"accepted strings must mean exactly the listed ports in both representations, refused ones must return an error. Non-trivial: accepted multi-element string")
+
+// ---- Round 6: the range list of every length, bounded-exhaustive
+
+var recPortLists = ev.New("C10", "port-range-list-exhaustive",
+	"bounded-exhaustive: for every list length k = 1..16, every choice of single-port ranges among {first, middle, last} (8) and five layouts (gaps of one port starting at 1; "+
+		"ranges starting on 64-bit block edges; ranges ending on block edges; the last range ending at 65535; wide gaps), built through Parse and through Add/AddRange: "+
+		"PortSet.Contains and RangeSet().Contains for all 65 535 ports (and port 0 for the list) against a [65536]bool model, RangeCount == k. Non-trivial: k >= 2").
+	Require("len=1", "len=2", "len=3", "len=4", "len=5", "len=6", "len=7", "len=8", "len=9", "len=10", "len=11", "len=12", "len=13", "len=14", "len=15", "len=16",
+		"single-first", "single-middle", "single-last")
+
+// TestPortRangeListExhaustive makes sure that the binary search of PortRangeSet is compared with
+// the bit set on all ports for lists of every length the router can keep (1..16), whatever the
+// random generator of TestPortSetModel happens to draw.
+func TestPortRangeListExhaustive(t *testing.T) {
+	for k := 1; k <= 16; k++ {
+		for singles := 0; singles < 8; singles++ {
+			for layout := 0; layout < 5; layout++ {
+				mid := k / 2
+				type rg struct{ from, to int }
+				var rs []rg
+				cur := 1
+				for i := 0; i < k; i++ {
+					single := (i == 0 && singles&1 != 0) || (i == k-1 && singles&4 != 0) || (i == mid && i != 0 && i != k-1 && singles&2 != 0)
+					w := 0
+					if !single {
+						w = []int{1, 2, 63, 64, 70}[(i+layout)%5]
+					}
+					switch layout {
+					case 0: // one missing port between ranges, starting at port 1
+						if i > 0 {
+							cur++
+						}
+					case 1: // every range starts on a block edge
+						cur = (cur/64 + 1) * 64
+					case 2: // every range ends on the last port of a block
+						cur = (cur/64+3)*64 - 1 - w
+					case 3: // computed below: shifted so that the last range ends at 65535
+						cur += 1 + (i*37)%90
+					default: // wide gaps
+						cur += 3000 + (i*911)%800
+					}
+					rs = append(rs, rg{cur, cur + w})
+					cur += w + 1
+				}
+				if layout == 3 {
+					d := 65535 - rs[k-1].to
+					for i := range rs {
+						rs[i].from += d
+						rs[i].to += d
+					}
+				}
+				var model [65536]bool
+				var viaParse, viaAdd portset.PortSet
+				var parts []string
+				for _, r := range rs {
+					if r.from < 1 || r.to > 65535 {
+						t.Fatalf("harness: layout %d k=%d out of range: %v", layout, k, rs)
+					}
+					for p := r.from; p <= r.to; p++ {
+						model[p] = true
+					}
+					if r.from == r.to {
+						parts = append(parts, strconv.Itoa(r.from))
+						viaAdd.Add(uint16(r.from))
+					} else {
+						parts = append(parts, fmt.Sprintf("%d-%d", r.from, r.to))
+						viaAdd.AddRange(uint16(r.from), uint16(r.to))
+					}
+				}
+				str := strings.Join(parts, ",")
+				if err := viaParse.Parse(str); err != nil {
+					t.Fatalf("SIG=C10/port-parse-rejected-valid string=%q err=%v", str, err)
+				}
+				if viaParse != viaAdd {
+					t.Fatalf("SIG=C10/port-parse-vs-add-differ string=%q", str)
+				}
+				if got := viaParse.RangeCount(); int(got) != k {
+					t.Fatalf("SIG=C10/port-rangecount got=%d want=%d string=%q", got, k, str)
+				}
+				list := viaParse.RangeSet()
+				if list.Contains(0) {
+					t.Fatalf("SIG=C10/port-rangeset-contains-0 string=%q", str)
+				}
+				for p := 1; p < 65536; p++ {
+					if got := viaParse.Contains(uint16(p)); got != model[p] {
+						t.Fatalf("SIG=C10/port-bitset-mismatch port=%d got=%v want=%v string=%q", p, got, model[p], str)
+					}
+					if got := list.Contains(uint16(p)); got != model[p] {
+						t.Fatalf("SIG=C10/port-rangeset-mismatch port=%d got=%v want=%v list-length=%d string=%q", p, got, model[p], k, str)
+					}
+				}
+				labels := []string{fmt.Sprintf("len=%d", k)}
+				if singles&1 != 0 {
+					labels = append(labels, "single-first")
+				}
+				if singles&2 != 0 && mid != 0 && mid != k-1 {
+					labels = append(labels, "single-middle")
+				}
+				if singles&4 != 0 {
+					labels = append(labels, "single-last")
+				}
+				recPortLists.Case(str, k >= 2, labels...)
+				recPortLists.Label("port-evaluations", 65535*2)
+			}
+		}
+	}
+	recPortLists.Exhaustive(true)
+	recPortLists.Sample(map[string]any{"lengths": "1..16", "single-port patterns": 8, "layouts": 5, "ports per list": 65535})
+}
